@@ -121,6 +121,9 @@ func c08Gen(r *Rand, tier string) interface{} {
 	for i, n := 0, r.Intn(4); i < n; i++ {
 		in.LatencyMS = append(in.LatencyMS, r.Pick(0, 1, 2, 5))
 	}
+	if len(in.Dirs) <= 20 && r.Chance(1, 4) {
+		in.LatencyMS = append(in.LatencyMS, r.Pick(300, 1000)) // a slow listing (small trees only: the loop lives 2 minutes)
+	}
 	for i, n := 0, r.Intn(4); i < n; i++ {
 		in.SleepMS = append(in.SleepMS, r.Pick(0, 0, 1, 10, 50))
 	}
